@@ -267,6 +267,43 @@ def specHuge (cx : Ctx) (line : String) : Option SExp :=
           if ¬ c < v.numCols then pure .panic else fin (cntWord "0" none true v.numRows (word w) [])
         | "cells", [w] | "cells_mut", [w] | "iter_ref", [w] | "iter_mut", [w] =>
           fin (cntWord "0" (some v.numCols) false (v.numCols * v.numRows) (word w) [])
+        -- C13: the swaps keep the shape; they are rejected exactly for out-of-range names
+        | "swap_rows", [r1, r2] => do
+          let r1 ← nat r1; let r2 ← nat r2
+          if !rc.isMut then none else if r1 < v.numRows ∧ r2 < v.numRows then pure same else pure .panic
+        | "swap", [c1, r1, c2, r2] => do
+          let c1 ← nat c1; let r1 ← nat r1; let c2 ← nat c2; let r2 ← nat r2
+          if !rc.isMut then none else if rc.inRange c1 r1 ∧ rc.inRange c2 r2 then pure same else pure .panic
+        | "row_pair", [r1, r2] => do
+          let r1 ← nat r1; let r2 ← nat r2
+          if !rc.isMut then none else
+          if r1 < v.numRows ∧ r2 < v.numRows ∧ r1 ≠ r2 then pure { same with toks := some [rowTok, rowTok] } else pure .panic
+        -- C06 / C07 on the array itself: dimensions afterwards (C01), the removed row as an ideal sequence
+        | "remove_row", [i, w, fin'] => do
+          let i ← nat i
+          if !rc.isRoot ∨ fin' ≠ "drop" then none else
+          if ¬ i < v.numRows then pure .panic else
+          (cntWord "0" none false v.numCols (expandDrainWord v.numCols (word w)) []).map fun (toks, _) =>
+            { status := "ok", toks := some toks, dims := some (if v.numRows = 1 then (0, 0) else (v.numCols, v.numRows - 1)) }
+        | "pop_row", [w, fin'] =>
+          if !rc.isRoot ∨ fin' ≠ "drop" then none else
+          if v.numRows = 0 then pure { same with toks := some ["none"] } else
+          (cntWord "0" none false v.numCols (expandDrainWord v.numCols (word w)) []).map fun (toks, _) =>
+            { status := "ok", toks := some toks, dims := some (if v.numRows = 1 then (0, 0) else (v.numCols, v.numRows - 1)) }
+        | "insert_row", [i, l, ev] => do
+          let i ← nat i; let l ← nat l; let ev ← parseEvents ev
+          if !rc.isRoot ∨ !(ev.all Option.isSome) ∨ l ≠ ev.length then none else
+          -- a `Vec` of zero-sized elements holds at most `usize::MAX` of them: beyond that `reserve` panics ("capacity overflow")
+          if i ≤ v.numRows ∧ l = v.numCols ∧ v.numCols * v.numRows + l < WORD then
+            pure { status := "ok", dims := some (v.numCols, v.numRows + 1) }
+          else pure .panic
+        | "push_row", [l, ev] => do
+          let l ← nat l; let ev ← parseEvents ev
+          if !rc.isRoot ∨ !(ev.all Option.isSome) ∨ l ≠ ev.length then none else
+          if l = v.numCols ∧ v.numCols * v.numRows + l < WORD then pure { status := "ok", dims := some (v.numCols, v.numRows + 1) }
+          else pure .panic
+        | "clear", [] => if rc.isRoot then pure { status := "ok", dims := some (0, 0) } else none
+        | "swap_dimensions", [] => if rc.isRoot then pure { status := "ok", dims := some (v.numRows, v.numCols) } else none
         | _, _ => none
   | _ => none
 
